@@ -178,7 +178,7 @@ impl<R: Read> JsonParserUtils for Reader<R> {
             chars.push(b'.');
             self.read_digits(&mut chars)?;
         }
-        if self.peek()? == Some(b'e' | b'E') {
+        if matches!(self.peek()?, Some(b'e' | b'E')) {
             double = true;
             chars.push(b'E');
             self.next()?;
